@@ -776,6 +776,46 @@ class Req:
             cal = gf.dep_callees(d)
             return any(c.endswith("::capacity") for c in cal) and any("from_be_bytes" in c for c in cal) and any(r["op"] in ("Lt", "Le", "Gt", "Ge") for r in d["binops"])
         g = gf.find_guards(f, dep, pushes)
+        if not g and pushes:
+            # the same test written against a constant that does not exceed the container's capacity
+            caps = {ia.type_cap((core.op_place(f.blocks[b]["term"]["args"][0]) or {}).get("ty", "")) for b in pushes}
+            cap = min(c for c in caps if c is not None) if caps and None not in caps else None
+
+            def dep2(d):
+                return any("from_be_bytes" in c for c in gf.dep_callees(d)) and any(r["op"] in ("Lt", "Le", "Gt", "Ge") for r in d["binops"])
+            for gd in gf.find_guards(f, dep2, pushes) if cap is not None else []:
+                t = f.blocks[gd.block]["term"]
+                dl = core.op_local(t["discr"])
+                ds = [d for d in f.defs_of(dl) if not f.blocks[d[0]]["cleanup"]] if dl is not None else []
+                if len(ds) != 1 or ds[0][1] == "term" or ds[0][2]["rv"]["k"] != "binop":
+                    continue
+                rv = ds[0][2]["rv"]
+                from . import hl as _hl
+                _ex = expr.Expr(self.F, f)
+
+                def cval(o):
+                    v = core.op_const_val(o)
+                    return v if v is not None else _hl.fold_const(_ex.of_operand(o))
+                ca, cb_ = cval(rv["a"]), cval(rv["b"])
+                if (ca is None) == (cb_ is None):
+                    continue
+                c = cb_ if cb_ is not None else ca
+                op = rv["op"] if cb_ is not None else {"Lt": "Gt", "Le": "Ge", "Gt": "Lt", "Ge": "Le"}[rv["op"]]
+                # value of the comparison on the passing edges
+                truth = set()
+                for v, tg in t["targets"]:
+                    if tg in gd.pass_targets:
+                        truth.add(bool(v))
+                if t.get("otherwise") in gd.pass_targets:
+                    listed = {v for v, _ in t["targets"]}
+                    truth.add(True if listed == {0} else (False if listed == {1} else None))
+                if len(truth) != 1 or None in truth:
+                    continue
+                tv = truth.pop()
+                # largest level count that passes
+                bound = {("Gt", False): c, ("Ge", False): c - 1, ("Le", True): c, ("Lt", True): c - 1}.get((op, tv))
+                if bound is not None and bound <= cap:
+                    g = [gd]
         return (len(g) >= 1 and bool(pushes), "level count compared with the container capacity before the push loop in %s: %d" % (f.path, len(g)))
 
     def key_parser(self):
